@@ -173,10 +173,12 @@ theorem pqHeapify (s : Store P) (i : Nat) (fuel : Nat) (h : fuel ≥ s.size + 2)
     have hne := heapifyLoop_noFuel s.size s i (by omega) (by omega)
     rw [hn, heapifyLoop_succ] at hne ⊢
     rw [pqHeapify_body, execStep_seq]
+    simp only [map_eq_pure_bind, bind_assoc, Function.comp]
     have h1 := agrees_of_map_eq proj03 _ _ (pqHeapify_part1_eq k
       { s := s, n := bindN [0] [i], p := bindP [] [] } hsz)
     simp only [bindN, upd, ↓reduceIte] at h1
-    refine Agrees.bindFin h1 ?_
+    refine Agrees.bindFin (kx := execStep (exec prog (k + 1)) (callWith (exec prog (k + 1)) prog)
+      (.while pqHeapify_loop1_cond pqHeapify_loop1_body)) h1 ?_
     intro st' b hy hrel
     subst hrel
     rw [exec_succ]
@@ -184,5 +186,238 @@ theorem pqHeapify (s : Store P) (i : Nat) (fuel : Nat) (h : fuel ≥ s.size + 2)
     have := hne
     unfold NoFuel at this
     simpa only [hy, ok_bind, proj03] using this
+
+/-! ## `PriorityQueue::bubble_up` -/
+
+/-- one iteration of the `while` of `bubble_up` in the hand model's terms; the flag says whether the hole moved -/
+def bStep (s : Store P) (pos : Nat) (prio : P) : R ((Store P × Nat) × Bool) := do
+  let pp ← s.prioAt (Arith.parent pos)
+  let s := s.tick
+  if pp < prio then do
+    let parentIndex ← getU s.heap (Arith.parent pos) 201
+    let heap ← setU s.heap pos parentIndex 202
+    let qp ← setU s.qp parentIndex pos 203
+    pure (({ s with heap := heap, qp := qp }, Arith.parent pos), true)
+  else pure ((s, pos), false)
+
+theorem bubbleUpLoop_succ (f : Nat) (s : Store P) (pos : Nat) (prio : P) :
+    MaxQ.bubbleUpLoop (f + 1) s pos prio =
+      if pos > 0 then bStep s pos prio >>= fun b => if b.2 then MaxQ.bubbleUpLoop f b.1.1 b.1.2 prio else pure b.1
+      else pure (s, pos) := by
+  simp only [MaxQ.bubbleUpLoop, bStep, bind_assoc, pure_bind]
+  src_close
+
+/-- what the rest of `bubble_up` looks at: the store, the hole (registers 3, 4) and the priority (register 2) -/
+def projB (st : St P) : Store P × Nat × Nat × Option P := (st.s, st.n 3, st.n 4, st.p 2)
+
+theorem pqBubbleUp_loop_body (rec : Stmt → St P → R (St P × Flow P)) (callf : CallF P) (st : St P) (prio : P)
+    (hp : st.p 2 = some prio) (hpos : st.n 3 > 0) :
+    (fun r => (projB r.1, r.2)) <$> execStep rec callf pqBubbleUp_loop1_body st
+      = (fun b => ((b.1.1, b.1.2, st.n 4, some prio), if b.2 then Flow.normal else Flow.brk)) <$>
+        bStep st.s (st.n 3) prio := by
+  have hpos' : ¬ st.n 3 = 0 := by omega
+  src_eval [pqBubbleUp_loop1_body, projB, bStep, Store.prioAt, hp, hpos']
+  src_close
+
+theorem pqBubbleUp_loop_cond (callf : CallF P) (st : St P) :
+    evalB callf st pqBubbleUp_loop1_cond = pure (st.s, decide (st.n 3 > 0)) := by
+  src_eval [pqBubbleUp_loop1_cond]
+
+theorem pqBubbleUp_loop (f : Nat) : ∀ (k : Nat) (st : St P) (prio : P), f ≤ k → st.p 2 = some prio →
+    NoFuel (MaxQ.bubbleUpLoop f st.s (st.n 3) prio) →
+    Agrees (exec prog (k + 1) (.while pqBubbleUp_loop1_cond pqBubbleUp_loop1_body) st)
+      (MaxQ.bubbleUpLoop f st.s (st.n 3) prio)
+      (fun st' r => st'.s = r.1 ∧ st'.n 3 = r.2 ∧ st'.n 4 = st.n 4) := by
+  induction f with
+  | zero => intro k st prio _ _ hne; exact absurd rfl hne
+  | succ f ih =>
+    intro k st prio hk hp hne
+    obtain ⟨k, rfl⟩ : ∃ k', k = k' + 1 := ⟨k - 1, by omega⟩
+    rw [exec, execStep_while, pqBubbleUp_loop_cond, bubbleUpLoop_succ] at *
+    by_cases hc : st.n 3 > 0
+    · simp only [hc, ↓reduceIte, decide_true, pure_bind] at hne ⊢
+      have hb := agreesB_of_map_eq' projB (fun (b : Store P × Nat) => (b.1, b.2, st.n 4, some prio)) _ _
+        (pqBubbleUp_loop_body (exec prog (k + 1)) (callWith (exec prog (k + 1)) prog) st prio hp hc)
+      refine AgreesB.bindW (kx := exec prog (k + 1) (.while pqBubbleUp_loop1_cond pqBubbleUp_loop1_body))
+        (ky := fun b => MaxQ.bubbleUpLoop f b.1 b.2 prio) (kb := fun b => pure b) hb ?_ ?_
+      · intro st2 b hy hrel
+        simp only [projB, Prod.mk.injEq] at hrel
+        obtain ⟨h1, h2, h3, h4⟩ := hrel
+        have := ih k st2 prio (by omega) h4 (by
+          have := hne
+          unfold NoFuel at this ⊢
+          simpa only [hy, ok_bind, h1, h2, ↓reduceIte] using this)
+        rw [h1, h2, h3] at this
+        exact this
+      · intro st2 b hy hrel
+        simp only [projB, Prod.mk.injEq] at hrel
+        obtain ⟨h1, h2, h3, h4⟩ := hrel
+        exact ⟨st2, rfl, h1, h2, h3⟩
+    · simp only [hc, ↓reduceIte, decide_false, pure_bind, Bool.false_eq_true]
+      exact ⟨_, rfl, rfl, rfl, rfl⟩
+
+theorem bStep_noFuel (s : Store P) (pos : Nat) (prio : P) : NoFuel (bStep s pos prio) := by
+  unfold bStep
+  have h := fun (s : Store P) i => NoFuel.prioAt s i
+  no_fuel
+
+theorem bStep_post (s : Store P) (pos : Nat) (prio : P) :
+    Post (bStep s pos prio) (fun b => b.2 = true → b.1.2 = Arith.parent pos) := by
+  unfold bStep
+  refine Post.bind (Post.triv _) fun pp _ => Post.ite (fun _ => ?_) (fun _ => Post.pure (by simp))
+  exact Post.bind (Post.triv _) fun _ _ => Post.bind (Post.triv _) fun _ _ => Post.bind (Post.triv _) fun _ _ =>
+    Post.pure (fun _ => rfl)
+
+theorem bubbleUpLoop_noFuel (f : Nat) : ∀ (s : Store P) (pos : Nat) (prio : P), pos < f →
+    NoFuel (MaxQ.bubbleUpLoop f s pos prio) := by
+  induction f with
+  | zero => intro s pos prio h; omega
+  | succ f ih =>
+    intro s pos prio h
+    rw [bubbleUpLoop_succ]
+    refine NoFuel.ite (fun hpos => NoFuel.bind (bStep_noFuel _ _ _) fun b hb => ?_) (fun _ => NoFuel.pure _)
+    have hp := bStep_post s pos prio b hb
+    refine NoFuel.ite (fun hb2 => ih _ _ _ ?_) (fun _ => NoFuel.pure _)
+    rw [hp hb2]
+    simp only [Arith.parent]
+    omega
+
+/-- `PriorityQueue::bubble_up` = `MaxQ.bubbleUp` -/
+theorem pqBubbleUp (s : Store P) (position mapPosition : Nat) (fuel : Nat) (h : fuel ≥ position + 2) :
+    Src.run SrcGen.prog fuel .pqBubbleUp s [position, mapPosition]
+      = (fun r => (r.1, Val.nat r.2)) <$> MaxQ.bubbleUp s position mapPosition := by
+  obtain ⟨k, rfl⟩ : ∃ k, fuel = k + 2 := ⟨fuel - 2, by omega⟩
+  src_enter [prog, SrcGen.pqBubbleUp]
+  unfold MaxQ.bubbleUp
+  src_eval [pqBubbleUp_body, pqBubbleUp_part1]
+  refine bind_congr_ok fun e he => ?_
+  rw [exec_succ]
+  have hl := pqBubbleUp_loop (position + 1) (k + 1)
+    { s := s, n := upd (upd (upd (upd (fun _ => 0) 1 mapPosition) 0 position) 3 position) 4 mapPosition,
+      p := upd (fun _ => none) 2 (some e.snd) } e.snd (by omega) (by simp [upd])
+    (by simpa [upd] using bubbleUpLoop_noFuel (position + 1) s position e.snd (by omega))
+  simp only [upd, ↓reduceIte, Nat.reduceEqDiff] at hl
+  refine Agrees.bindFin (kx := execStep (exec prog (k + 1)) (callWith (exec prog (k + 1)) prog) pqBubbleUp_part2) hl ?_
+  intro st' b hy hrel
+  obtain ⟨h1, h2, h3⟩ := hrel
+  src_eval [pqBubbleUp_part2, h1, h2, h3]
+
+/-! ## `PriorityQueue::up_heapify` -/
+
+theorem call_pqHeapify (s : Store P) (i n : Nat) (h : n ≥ s.size + 2) :
+    callWith (exec prog n) prog .pqHeapify s [i] [] = (fun s' => (s', Val.unit)) <$> MaxQ.heapify s i :=
+  pqHeapify s i n h
+
+theorem call_pqBubbleUp (s : Store P) (pos mp n : Nat) (h : n ≥ pos + 2) :
+    callWith (exec prog n) prog .pqBubbleUp s [pos, mp] [] = (fun r => (r.1, Val.nat r.2)) <$> MaxQ.bubbleUp s pos mp :=
+  pqBubbleUp s pos mp n h
+
+theorem bStep_post_size (s : Store P) (pos : Nat) (prio : P) :
+    Post (bStep s pos prio) (fun b => b.1.1.size = s.size) := by
+  unfold bStep
+  refine Post.bind (Post.triv _) fun pp _ => Post.ite (fun _ => ?_) (fun _ => Post.pure rfl)
+  exact Post.bind (Post.triv _) fun _ _ => Post.bind (Post.triv _) fun _ _ => Post.bind (Post.triv _) fun _ _ =>
+    Post.pure rfl
+
+theorem bubbleUpLoop_post_size (f : Nat) : ∀ (s : Store P) (pos : Nat) (prio : P),
+    Post (MaxQ.bubbleUpLoop f s pos prio) (fun r => r.1.size = s.size) := by
+  induction f with
+  | zero => intro s pos prio r hr; cases hr
+  | succ f ih =>
+    intro s pos prio
+    rw [bubbleUpLoop_succ]
+    refine Post.ite (fun _ => Post.bind (bStep_post_size s pos prio) fun b hb => ?_) (fun _ => Post.pure rfl)
+    refine Post.ite (fun _ => ?_) (fun _ => Post.pure hb)
+    intro r hr
+    rw [ih _ _ _ r hr, hb]
+
+theorem bubbleUp_post_size (s : Store P) (pos mp : Nat) :
+    Post (MaxQ.bubbleUp s pos mp) (fun r => r.1.size = s.size) := by
+  unfold MaxQ.bubbleUp
+  refine Post.bind (Post.triv _) fun e _ => Post.bind (bubbleUpLoop_post_size _ s pos e.2) fun r hr => ?_
+  exact Post.bind (Post.triv _) fun _ _ => Post.bind (Post.triv _) fun _ _ => Post.pure hr
+
+/-- `PriorityQueue::up_heapify` = `MaxQ.upHeapify` -/
+theorem pqUpHeapify (s : Store P) (i : Nat) (fuel : Nat) (h : fuel ≥ s.size + i + 3) :
+    Src.run SrcGen.prog fuel .pqUpHeapify s [i] = (fun s' => (s', Val.unit)) <$> MaxQ.upHeapify s i := by
+  obtain ⟨k, rfl⟩ : ∃ k, fuel = k + 1 := ⟨fuel - 1, by omega⟩
+  src_enter [prog, SrcGen.pqUpHeapify]
+  unfold MaxQ.upHeapify
+  src_eval [pqUpHeapify_body]
+  refine bind_congr_ok fun tmp _ => ?_
+  rw [call_pqBubbleUp _ _ _ _ (by omega)]
+  src_eval
+  refine bind_congr_ok fun r hr => ?_
+  have hsz := bubbleUp_post_size s i tmp r hr
+  rw [call_pqHeapify _ _ _ (by omega)]
+  src_eval
+
+/-! ## `PriorityQueue::heap_build` -/
+
+theorem hK_post_size (f : Nat) : ∀ (s : Store P) (i lg : Nat), Post (hK f s i lg) (fun s' => s'.size = s.size) := by
+  induction f with
+  | zero =>
+    intro s i lg
+    unfold hK
+    refine Post.ite (fun _ => Post.pure rfl) (fun _ => Post.bind (Post.triv _) fun _ _ => ?_)
+    intro r hr; simp [MaxQ.heapifyLoop] at hr
+  | succ f ih =>
+    intro s i lg
+    by_cases h : lg = i
+    · simp only [hK, h, ↓reduceIte]; exact Post.pure rfl
+    · rw [hK_succ _ _ _ _ h]
+      unfold hStep
+      refine Post.bind (Post.bind (swap_post s i lg) fun s1 h1 => Post.bind (pickLargest_post s1 lg) fun r hr =>
+        Post.pure (Q := fun (b : Store P × Nat × Nat) => b.1.size = s.size) (by simp only; rw [hr.1, h1])) fun b hb => ?_
+      intro r hr
+      rw [ih _ _ _ r hr, hb]
+
+theorem heapify_post_size (s : Store P) (i : Nat) : Post (MaxQ.heapify s i) (fun s' => s'.size = s.size) := by
+  unfold MaxQ.heapify
+  refine Post.ite (fun _ => Post.pure rfl) (fun h => ?_)
+  obtain ⟨n, hn⟩ : ∃ n, s.size = n + 1 := ⟨s.size - 1, by omega⟩
+  rw [hn, heapifyLoop_succ, ← hn]
+  unfold hPick
+  refine Post.bind (Post.bind (pickLargest_post s i) fun r hr => Post.pure (Q := fun (b : Store P × Nat × Nat) => b.1.size = s.size) hr.1) fun b hb => ?_
+  intro r hr
+  rw [hK_post_size _ _ _ _ r hr, hb]
+
+/-- the `for` loop of `heap_build`, for any body that behaves like `heapify(j)` on stores of size `≤ n` -/
+theorem pqHeapBuild_for (n : Nat) (body : Nat → St P → R (St P × Flow P))
+    (hbody : ∀ j (st : St P), st.s.size = n → body j st =
+      (fun s' => ({ s := s', n := upd st.n 0 j, p := st.p }, Flow.normal)) <$> MaxQ.heapify st.s j) :
+    ∀ (h : Nat) (st : St P), st.s.size = n →
+    Agrees (forDown body h st) (MaxQ.heapBuildLoop st.s h) (fun st' s' => st'.s = s') := by
+  intro h
+  induction h with
+  | zero =>
+    intro st hn
+    rw [forDown, hbody 0 st hn, MaxQ.heapBuildLoop]
+    cases hh : MaxQ.heapify st.s 0 with
+    | error e => exact Agrees.error_iff _ _ _ |>.mpr rfl
+    | ok s' => exact ⟨_, rfl, rfl⟩
+  | succ h ih =>
+    intro st hn
+    rw [forDown, hbody (h + 1) st hn, MaxQ.heapBuildLoop]
+    cases hh : MaxQ.heapify st.s (h + 1) with
+    | error e => exact Agrees.error_iff _ _ _ |>.mpr rfl
+    | ok s' =>
+      have hs := heapify_post_size st.s (h + 1) s' hh
+      exact ih _ (by simp only at hs ⊢; omega)
+
+/-- `PriorityQueue::heap_build` = `MaxQ.heapBuild` -/
+theorem pqHeapBuild (s : Store P) (fuel : Nat) (h : fuel ≥ s.size + 3) :
+    Src.run SrcGen.prog fuel .pqHeapBuild s [] = (fun s' => (s', Val.unit)) <$> MaxQ.heapBuild s := by
+  obtain ⟨k, rfl⟩ : ∃ k, fuel = k + 1 := ⟨fuel - 1, by omega⟩
+  src_enter [prog, SrcGen.pqHeapBuild]
+  unfold MaxQ.heapBuild
+  by_cases hsz : s.size = 0
+  · src_eval [pqHeapBuild_body, hsz]
+  · rw [pqHeapBuild_body, execStep_seq]
+    src_eval [hsz, MaxQ.parentC]
+    refine Agrees.fin_unit (pqHeapBuild_for s.size _ ?_ _ _ rfl)
+    intro j st hn
+    rw [call_pqHeapify _ _ _ (by omega)]
+    src_eval
 
 end PQ.SrcEquiv
